@@ -77,7 +77,22 @@ def _gen_auth_adapter(rng):
             "client_secret": rng.choice(["s3cr3t", "other"])}
 
 
+_POOL = []      # adapter specs with a pool key generated so far in this run (reset by generate)
+
+
 def _gen_adapter(rng, uid, allow_prefix=True, allow_auth=False):
+    if _POOL and rng.random() < 0.12:
+        a = rng.choice(_POOL)
+        if a["a"] != "auth" or allow_auth:
+            return dict(a)          # the very same adapter object again
+    a = _gen_adapter_new(rng, uid, allow_prefix, allow_auth)
+    if rng.random() < 0.3:
+        a["pool"] = f"p{uid}"
+        _POOL.append(dict(a))
+    return a
+
+
+def _gen_adapter_new(rng, uid, allow_prefix=True, allow_auth=False):
     r = rng.random()
     if allow_auth and r < 0.25:
         return _gen_auth_adapter(rng)
@@ -119,6 +134,7 @@ def _sibling_spec(rng, spec, uid):
     """same shape (kinds, description-relevant fields), other behaviour: what a cache keyed too coarsely confuses"""
     def mut(a, i):
         a = dict(a)
+        a.pop("pool", None)
         if a["a"] == "hdr":
             a["name"], a["value"] = f"X-Ad-{uid}{i}", f"v{uid}{i}"
         elif a["a"] == "wrap":
@@ -208,6 +224,7 @@ def gen_request(rng, k, node, nid, fault_rate, kinds):
 
 
 def generate(rng, tier):
+    del _POOL[:]
     ops = []
     nodes = []
     clone_specs = {}
@@ -383,6 +400,7 @@ class World:
         self.model = HttpModel()
         self.objs = {}          # nid -> real object
         self.classes = hw.make_adapter_classes()
+        self.adapter_pool = {}
         self.held_lists = []    # (caller-owned list/tuple handed to the code, deep copy of its element ids)
         self.stats = {"derive": 0, "clone": 0, "add_adapter": 0, "req_ok": 0, "req_exc": 0,
                       "caller_objs_checked": 0, "old_node_requests": 0, "long_chains": 0,
@@ -400,18 +418,28 @@ class World:
         except Exception as e:
             raise Violation("construct", f"{what}-raised-{type(e).__name__}", f"{what}: {e!r}")
 
+    def adapter_obj(self, a):
+        """adapters marked with a pool key are the SAME object wherever they are used (a caller may
+        hand one adapter instance to several connections)"""
+        key = a.get("pool")
+        if key is None:
+            return hw.make_adapter(a, self.classes)
+        if key not in self.adapter_pool:
+            self.adapter_pool[key] = hw.make_adapter(a, self.classes)
+        return self.adapter_pool[key]
+
     def mk_adapters_arg(self, spec):
         if spec is None:
             return None, []
         if "list" in spec:
-            objs = [hw.make_adapter(a, self.classes) for a in spec["list"]]
+            objs = [self.adapter_obj(a) for a in spec["list"]]
             lst = list(objs)
             self.held_lists.append((lst, list(objs)))
             return lst, objs
         if "tuple" in spec:
             objs = [hw.make_adapter(a, self.classes) for a in spec["tuple"]]
             return tuple(objs), objs
-        o = hw.make_adapter(spec, self.classes)
+        o = self.adapter_obj(spec)
         return o, [o]
 
     def do_structural(self, op):
